@@ -17,12 +17,14 @@ def c04_run(ctx):
     return violations, cov
 
 CHECK = {
-    "lean_modules": ["P3R.Props.C04", "P3R.Props.C04Full", "P3R.Witness.C04"],
+    "lean_modules": ["P3R.Props.C04", "P3R.Props.C04Full", "P3R.Props.C04Packed", "P3R.Witness.C04"],
     "theorems": ["P3R.C04.readers_agree", "P3R.C04.row_sat_add", "P3R.C04.row_sat_mul", "P3R.C04.row_sat_bool",
                  "P3R.C04.row_sat_muladd", "P3R.C04.row_sat_horner", "P3R.C04.accepted_alu_sat_partial", "P3R.C04.const_not_bound",
                  # composition: balanced bus + single creator (C09) + row constraints on cells => a satisfying assignment exists
                  "P3R.C04.bus_single_valued", "P3R.C04.genPrep_slots", "P3R.C04.rowsOk_sat", "P3R.C04.accepted_sat",
-                 "P3R.C04.accepted_sat_genPrep", "P3R.Witness.C04.accepted_sat_nonvacuous"],
+                 "P3R.C04.accepted_sat_genPrep", "P3R.Witness.C04.accepted_sat_nonvacuous", "P3R.Witness.C04.unchained_accepted_not_sat",
+                 # packed rows: the unpacking argument (tuple-level bus equivalence of a packed row and its k steps; composition on any equivalent bus)
+                 "P3R.C04.packed_tuple_net", "P3R.C04.accepted_sat_bus_equiv"],
     "run": c04_run,
     "trusted_base": ["ideal STARK/LogUp: an accepted proof implies row constraints hold on some committed trace and the WitnessChecks bus is balanced as a signed multiset (DESIGN §2)"],
     "assumptions": ["D = 1 and single-step Horner rows in the Lean composition theorem (packed arities are covered by C11's packed2/3_iff); accepted_sat assumes no ALU operand is off the bus (role `skip`; 0 of 36k generated rows in the C09 run) and that a Const row's cell is the circuit's constant (false today: finding F4); permutation / recompose rows are not modelled"],
